@@ -452,6 +452,21 @@ Theorem C07_walker_contract : forall mkR body w, j5s_walk_gen mkR body = Ok w ->
 Proof. exact j5s_walk_gen_contract. Qed.
 Print Assumptions C07_walker_contract.
 
+(* one of the walker's "outside the model" classes is EMPTY for the translated schema: [split_pieces] answers
+   "outside the model" for a scalar split with a delimiter other than "."; every block spec the walker holds is
+   [cont_spec] of a container, whose split is the one of the given spec in the translated table
+   WalkSchemaGen.specs, and all delimiters there are "." (computed: a new delimiter in the schema's block specs
+   breaks proofs/CmpbWalkProofs.v given_specs_delims at make time).  So for every container, value and reason
+   the pieces of a scalar split are computed by the model. *)
+Theorem C07_walker_split_delimiters_modelled : forall c ss val w,
+  bs_split (cont_spec c) = Some ss -> split_pieces ss val <> RUnmod w.
+Proof. exact split_pieces_modelled. Qed.
+Print Assumptions C07_walker_split_delimiters_modelled.
+
+Example C07_example_split_delimiter :
+  exists ss, bs_split (cont_spec (CSchema "j5.schema.v1.Ref")) = Some ss /\ sp_delim ss = Some "."%string.
+Proof. exact split_pieces_modelled_example. Qed.
+
 (* the protovalidate rules of the walker model were written from exactly the buf.validate annotations the two .proto
    files carry today, and each annotated field has a model rule or is one of the two stated exemptions *)
 Theorem C07_validate_rules_agree :
